@@ -416,6 +416,16 @@ def run_timeout_rule(spec):
         got_lock = any(o == 'ok' for o in flocks) and all(o == 'same' for o in stats_) and bool(flocks) and flocks[-1] == 'ok'
         if got_lock or not times or times[-1] != 'late' or ('enter', None) in before:
             bad.append(tr)
+        if a['style'] == 'sem':
+            # a semaphore is "taken" only if every one of its n slot files was tried (and failed) in the last pass
+            last = before
+            for j in range(len(before) - 1, -1, -1):
+                if before[j][0] == 'rand':
+                    last = before[j:]
+                    break
+            slots = {e.split(':')[1] for e, o in last if e.startswith('open:')}
+            if len(slots) != a.get('n', 1):
+                bad.append(tr)
     # and: a successful flock (with a current inode) always leads to 'enter', never to a timeout
     st = dict(paths=len(traces), queries=0, solver_s=0.0)
     if bad:
@@ -481,6 +491,8 @@ def obligations(tier, seed):
     sems = [(1, 2), (2, 3)]   # n=3/k=4 takes ~15 min (70k Houdini queries): left out, stated in bounds
     for n, k in sems:
         specs.append(_spec('semaphore/n%d/k%d' % (n, k), 'run_mutex', style='sem', n=n, k=k, cost=40 * k))
+    for n in ((2, 3) if tier == 'thorough' else (2,)):
+        specs.append(_spec('timeout-rule/semaphore-n%d' % n, 'run_timeout_rule', style='sem', n=n, cost=5))
     specs.append(dict(name='twin/critical-section-reachable', module=MOD, func='run_witness', kind='witness', args=dict(style='remove', k=2), cost=2))
     for label, func, args, patches in (CANARIES if tier == 'thorough' else CANARIES[:3]):
         specs.append(dict(name='canary/' + label, module=MOD, func=func, kind='canary', cost=10,
